@@ -206,7 +206,7 @@ func cmdRegistry(args []string) {
 	}
 	// lints the driver registers late (after every lookup has been used and after the Filter calls below)
 	late := []mockSpec{{Name: "e_verif_zlate_cert", Kind: "cert", Source: lint.RFC5280}, {Name: "w_verif_alate_cert", Kind: "cert", Source: lint.CABFBaselineRequirements},
-		{Name: "e_verif_late_crl", Kind: "crl", Source: lint.RFC5280}, {Name: "e_verif_late_ocsp", Kind: "ocsp", Source: lint.RFC6960}, {Name: "n_verif_late_etsi", Kind: "cert", Source: lint.EtsiEsi}}
+		{Name: "e_verif_late_crl", Kind: "crl", Source: lint.RFC5280}, {Name: "n_verif_late_etsi", Kind: "cert", Source: lint.EtsiEsi}, {Name: "e_verif_late_ocsp", Kind: "ocsp", Source: lint.RFC6960}}
 	lateNames := []string{}
 	for _, m := range late {
 		universe = append(universe, m.Name)
@@ -217,6 +217,9 @@ func cmdRegistry(args []string) {
 	kinds, srcs := make([]string, len(universe)), make([]string, len(universe))
 	for i, n := range universe {
 		kinds[i], srcs[i] = v.Kind[n], v.Src[n]
+	}
+	for _, m := range late {
+		kinds[rk[m.Name]-1], srcs[rk[m.Name]-1] = m.Kind, string(m.Source)
 	}
 	regEv := ev.M{"ev": "Reg", "names": universe, "kind": kinds, "src": srcs, "late": lateNames}
 
@@ -346,155 +349,162 @@ func cmdRegistry(args []string) {
 	for _, pr := range parents {
 		views = append(views, viewOf(pr))
 	}
-	var jobs []fjob
-	for i := 0; i < n; i++ {
-		pi := 0
-		if i%5 == 3 && len(parents) > 1 {
-			pi = 1
-		} else if i%5 == 4 && len(parents) > 2 {
-			pi = 2
-		}
-		var o lint.FilterOptions
-		mode := rng.Intn(10)
-		if mode < 6 {
-			o.IncludeNames, _ = randNames(6, views[pi], mode < 5)
-			o.ExcludeNames, _ = randNames(4, views[pi], mode < 5)
-		}
-		if mode >= 5 && mode != 6 {
-			o.NameFilter = regexp.MustCompile(rePool[rng.Intn(len(rePool))])
-		}
-		if rng.Intn(2) == 0 {
-			o.IncludeSources = randSources()
-		}
-		if rng.Intn(2) == 0 {
-			o.ExcludeSources = randSources()
-		}
-		if i < 40 {
-			// plain corner cases first: nil vs empty everything
-			o = lint.FilterOptions{}
-			if i%2 == 1 {
-				o.IncludeNames, o.ExcludeNames, o.IncludeSources, o.ExcludeSources = []string{}, []string{}, lint.SourceList{}, lint.SourceList{}
+	genJobs := func(n int, cornerCases bool) []fjob {
+		var jobs []fjob
+		for i := 0; i < n; i++ {
+			pi := 0
+			if i%5 == 3 && len(parents) > 1 {
+				pi = 1
+			} else if i%5 == 4 && len(parents) > 2 {
+				pi = 2
 			}
-			if i >= 2 {
-				o.IncludeSources = lint.SourceList{allSources[i%len(allSources)]}
+			var o lint.FilterOptions
+			mode := rng.Intn(10)
+			if mode < 6 {
+				o.IncludeNames, _ = randNames(6, views[pi], mode < 5)
+				o.ExcludeNames, _ = randNames(4, views[pi], mode < 5)
 			}
-			if i >= 20 {
-				o.IncludeSources = nil
-				o.ExcludeNames = []string{tok(universe[(i*37)%len(universe)])}
+			if mode >= 5 && mode != 6 {
+				o.NameFilter = regexp.MustCompile(rePool[rng.Intn(len(rePool))])
 			}
+			if rng.Intn(2) == 0 {
+				o.IncludeSources = randSources()
+			}
+			if rng.Intn(2) == 0 {
+				o.ExcludeSources = randSources()
+			}
+			if cornerCases && i < 40 {
+				// plain corner cases first: nil vs empty everything
+				o = lint.FilterOptions{}
+				if i%2 == 1 {
+					o.IncludeNames, o.ExcludeNames, o.IncludeSources, o.ExcludeSources = []string{}, []string{}, lint.SourceList{}, lint.SourceList{}
+				}
+				if i >= 2 {
+					o.IncludeSources = lint.SourceList{allSources[i%len(allSources)]}
+				}
+				if i >= 20 {
+					o.IncludeSources = nil
+					o.ExcludeNames = []string{tok(universe[(i*37)%len(universe)])}
+				}
+			}
+			jobs = append(jobs, fjob{parent: pi, opts: o})
 		}
-		jobs = append(jobs, fjob{parent: pi, opts: o})
+		return jobs
 	}
-	events := make([]ev.M, len(jobs))
-	classes := make([]string, len(jobs))
-	parallel(len(jobs), func(i int) {
-		j := jobs[i]
-		parent := parents[j.parent]
-		before := viewOf(parent)
-		beforeCfg := parent.GetConfiguration()
-		res, err := func() (r lint.Registry, e error) {
-			defer func() {
-				if p := recover(); p != nil {
-					e = fmt.Errorf("panic: %v", p)
-				}
+	jobs := genJobs(n, true)
+	execJobs := func(jobs []fjob) ([]ev.M, []string) {
+		events := make([]ev.M, len(jobs))
+		classes := make([]string, len(jobs))
+		parallel(len(jobs), func(i int) {
+			j := jobs[i]
+			parent := parents[j.parent]
+			before := viewOf(parent)
+			beforeCfg := parent.GetConfiguration()
+			res, err := func() (r lint.Registry, e error) {
+				defer func() {
+					if p := recover(); p != nil {
+						e = fmt.Errorf("panic: %v", p)
+					}
+				}()
+				return parent.Filter(j.opts)
 			}()
-			return parent.Filter(j.opts)
-		}()
-		after := viewOf(parent)
-		m := ev.M{"ev": "Filter", "parent": j.parent, "parentNames": ranks(rk, before.Names)}
-		// tokens: [rank of the trimmed token in the reference universe, present in parent?]; trimming by Go's strings.TrimSpace
-		enc := func(toks []string) []int {
-			out := []int{}
-			for _, t := range toks {
-				out = append(out, rk[strings.TrimSpace(t)])
-			}
-			return out
-		}
-		m["ix"], m["xx"] = enc(j.opts.IncludeNames), enc(j.opts.ExcludeNames)
-		m["ixRaw"], m["xxRaw"] = j.opts.IncludeNames, j.opts.ExcludeNames
-		if j.opts.IncludeNames == nil {
-			m["ixRaw"] = []string{}
-		}
-		if j.opts.ExcludeNames == nil {
-			m["xxRaw"] = []string{}
-		}
-		ss := func(l lint.SourceList) []string {
-			o := []string{}
-			for _, s := range l {
-				o = append(o, string(s))
-			}
-			return o
-		}
-		m["is"], m["xs"] = ss(j.opts.IncludeSources), ss(j.opts.ExcludeSources)
-		m["nf"] = j.opts.NameFilter != nil
-		match := []int{}
-		if j.opts.NameFilter != nil {
-			m["re"] = j.opts.NameFilter.String()
-			for _, nme := range universe {
-				if j.opts.NameFilter.MatchString(nme) {
-					match = append(match, rk[nme])
+			after := viewOf(parent)
+			m := ev.M{"ev": "Filter", "parent": j.parent, "parentNames": ranks(rk, before.Names)}
+			// tokens: [rank of the trimmed token in the reference universe, present in parent?]; trimming by Go's strings.TrimSpace
+			enc := func(toks []string) []int {
+				out := []int{}
+				for _, t := range toks {
+					out = append(out, rk[strings.TrimSpace(t)])
 				}
+				return out
 			}
-		}
-		m["nfMatch"] = match
-		m["err"] = err != nil
-		if err != nil {
-			m["errMsg"] = err.Error()
-		}
-		m["parentUnchanged"] = reflect.DeepEqual(before, after) && beforeCfg == parent.GetConfiguration()
-		sel, kindOK, metaOK, same, cfgSame := []int{}, true, true, false, false
-		srcAgree := true
-		if err == nil && res != nil {
-			rv := viewOf(res)
-			sel = ranks(rk, rv.Names)
-			same = res == parent
-			cfgSame = res.GetConfiguration() == beforeCfg
-			inKind := 0
-			for _, k := range []string{"cert", "crl", "ocsp"} {
-				for _, nme := range rv.PerKind[k] {
-					inKind++
-					if before.Kind[nme] != k {
-						kindOK = false
-					}
-					pm, _ := metaOf(parent, k, nme)
-					rm, _ := metaOf(res, k, nme)
-					if !metaEqual(pm, rm) {
-						metaOK = false
+			m["ix"], m["xx"] = enc(j.opts.IncludeNames), enc(j.opts.ExcludeNames)
+			m["ixRaw"], m["xxRaw"] = j.opts.IncludeNames, j.opts.ExcludeNames
+			if j.opts.IncludeNames == nil {
+				m["ixRaw"] = []string{}
+			}
+			if j.opts.ExcludeNames == nil {
+				m["xxRaw"] = []string{}
+			}
+			ss := func(l lint.SourceList) []string {
+				o := []string{}
+				for _, s := range l {
+					o = append(o, string(s))
+				}
+				return o
+			}
+			m["is"], m["xs"] = ss(j.opts.IncludeSources), ss(j.opts.ExcludeSources)
+			m["nf"] = j.opts.NameFilter != nil
+			match := []int{}
+			if j.opts.NameFilter != nil {
+				m["re"] = j.opts.NameFilter.String()
+				for _, nme := range universe {
+					if j.opts.NameFilter.MatchString(nme) {
+						match = append(match, rk[nme])
 					}
 				}
 			}
-			if inKind != len(rv.Names) {
-				kindOK = false
+			m["nfMatch"] = match
+			m["err"] = err != nil
+			if err != nil {
+				m["errMsg"] = err.Error()
 			}
-			want := map[string]bool{}
-			for _, nme := range rv.Names {
-				want[rv.Src[nme]] = true
+			m["parentUnchanged"] = reflect.DeepEqual(before, after) && beforeCfg == parent.GetConfiguration()
+			sel, kindOK, metaOK, same, cfgSame := []int{}, true, true, false, false
+			srcAgree := true
+			if err == nil && res != nil {
+				rv := viewOf(res)
+				sel = ranks(rk, rv.Names)
+				same = res == parent
+				cfgSame = res.GetConfiguration() == beforeCfg
+				inKind := 0
+				for _, k := range []string{"cert", "crl", "ocsp"} {
+					for _, nme := range rv.PerKind[k] {
+						inKind++
+						if before.Kind[nme] != k {
+							kindOK = false
+						}
+						pm, _ := metaOf(parent, k, nme)
+						rm, _ := metaOf(res, k, nme)
+						if !metaEqual(pm, rm) {
+							metaOK = false
+						}
+					}
+				}
+				if inKind != len(rv.Names) {
+					kindOK = false
+				}
+				want := map[string]bool{}
+				for _, nme := range rv.Names {
+					want[rv.Src[nme]] = true
+				}
+				got := map[string]bool{}
+				for _, s := range res.Sources() {
+					got[string(s)] = true
+				}
+				srcAgree = reflect.DeepEqual(want, got)
 			}
-			got := map[string]bool{}
-			for _, s := range res.Sources() {
-				got[string(s)] = true
+			m["sel"], m["kindOK"], m["metaOK"], m["same"], m["cfgSame"], m["srcAgree"] = sel, kindOK, metaOK, same, cfgSame, srcAgree
+			events[i] = m
+			switch {
+			case err != nil:
+				classes[i] = "err:" + strings.SplitN(err.Error(), " ", 3)[0]
+			case len(sel) == 0:
+				classes[i] = "nothing"
+			case len(sel) == len(before.Names):
+				classes[i] = "everything"
+			default:
+				classes[i] = fmt.Sprintf("sel|%v|%v|%v|%d", m["nf"], len(j.opts.IncludeSources) > 0, len(j.opts.ExcludeSources) > 0, len(sel))
 			}
-			srcAgree = reflect.DeepEqual(want, got)
-		}
-		m["sel"], m["kindOK"], m["metaOK"], m["same"], m["cfgSame"], m["srcAgree"] = sel, kindOK, metaOK, same, cfgSame, srcAgree
-		events[i] = m
-		switch {
-		case err != nil:
-			classes[i] = "err:" + strings.SplitN(err.Error(), " ", 3)[0]
-		case len(sel) == 0:
-			classes[i] = "nothing"
-		case len(sel) == len(before.Names):
-			classes[i] = "everything"
-		default:
-			classes[i] = fmt.Sprintf("sel|%v|%v|%v|%d", m["nf"], len(j.opts.IncludeSources) > 0, len(j.opts.ExcludeSources) > 0, len(sel))
-		}
-	})
+		})
+		return events, classes
+	}
+	events, classes := execJobs(jobs)
 	cls := map[string]int{}
 	for i, e := range events {
 		wf.Emit(e)
 		cls[classes[i]]++
 	}
-	wf.Close()
 	// ---- C12 again: the lookups of the global registry after it has been filtered thousands of times, and after lints were
 	// registered late (every lookup, BySource included, had been used before): the tables must still be the model's
 	w.Emit(tablesEvent(g, universe, rk, "after the Filter calls"))
@@ -504,6 +514,15 @@ func cmdRegistry(args []string) {
 			"hasDesc": true, "implNil": false, "eff": ev.Inst(time.Time{}), "ineff": ev.Inst(time.Time{}), "implType": "mock"})
 		w.Emit(tablesEvent(g, universe, rk, "after registering "+ms.Name))
 	}
+	// ---- C08 again: Filter over the registry as it is now, with the lately registered lints of every kind in it
+	views[0] = viewOf(g)
+	ev2, cl2 := execJobs(genJobs(n/5, false))
+	for i, e := range ev2 {
+		e["late"] = true
+		wf.Emit(e)
+		cls[cl2[i]]++
+	}
+	wf.Close()
 	if f, err := g.Filter(lint.FilterOptions{ExcludeNames: []string{universe[0]}}); err == nil && f != nil {
 		_ = f.Names()
 		w.Emit(tablesEvent(g, universe, rk, "after an exclude-names filter"))
